@@ -639,6 +639,11 @@ inline void dubins_family(Sink & sink, Rng & r, int n)
     dubins_case<1>(sink, m * std::cos(a), m * std::sin(a), h, R, "degree");
     dubins_case<5>(sink, m * std::cos(a), m * std::sin(a), h, R, "degree");
   }
+  // targets exactly on a feasibility boundary: the start's right (left) circle touches the target's left (right) circle
+  for (int q = 0; q < 6; ++q) {
+    const double R = Rs[q % 3];
+    dubins_case<3>(sink, 0., (q < 3 ? -4. : 4.) * R, 0., R, "boundary");
+  }
 }
 
 // ------------------------------------------------------------------------------------------------
